@@ -744,6 +744,11 @@ func (c *updater) buildBackendOAuth(d *backData) {
 			uriPrefix = prefix.Value
 		}
 		uriPrefix = strings.TrimRight(uriPrefix, "/")
+		if uriPrefix == "" {
+			// every request would be part of the oauth service and skip the authentication
+			c.logger.Error("ignoring oauth configuration on %v: uri prefix cannot be the root path", oauth.Source)
+			continue
+		}
 		namespace := oauth.Source.Namespace
 		backend := c.findBackend(namespace, path.Link.Hostname(), uriPrefix)
 		if backend == nil {
